@@ -208,3 +208,90 @@ def check_seeds(case, ctx):
     if n >= 2 and len(set(seeds)) == n:
         if any(np.array_equal(base[0], base[k]) for k in range(1, n)):
             raise Violation("two configurations with different seeds are identical", ("identical_configs",))
+
+
+# ------------------------------------------------------------------------------ claim 3 (PRISM)
+@st.composite
+def prism_case(draw):
+    pot = draw(pl.potential_spec(kinds=("fp", "fp_mean", "fp_mean", "atoms_ensemble"), max_slices=3, max_configs=3, finite_fraction=0.0, exit_planes=False))
+    cell = pot["atoms"]["cell"]
+    scan = draw(pl.scan_spec(cell))
+    if scan["kind"] == "none":
+        scan = {"kind": "custom", "positions": [[round(0.3 * cell[0], 3), round(0.6 * cell[1], 3)]]}
+    return {
+        "potential": pot,
+        "gpts": [draw(st.integers(10, 18)), draw(st.integers(10, 18))],
+        "energy": draw(st.sampled_from([80e3, 100e3, 200e3])),
+        "semiangle": round(draw(gen.floats(0.3, 0.7)), 3),
+        "scan": scan,
+        "detectors": [draw(pl.detector_spec()) for _ in range(draw(st.integers(1, 3)))],
+        "lazy": draw(st.booleans()),
+        "call": draw(st.sampled_from(["scan", "reduce"])),
+    }
+
+
+@claim(
+    "C02",
+    "prism_members_equal_single_runs",
+    prism_case,
+    quick=120,
+    thorough=2500,
+    tol=f"pipeline rtol={RTOL} (inf-norm, relative to max|ref|), atol 1e-6 of the unit probe intensity for measurements",
+    rule="num_configs >= 2",
+    nontrivial_floor=0.3,
+)
+def check_prism_members(case, ctx):
+    """The same statement through PRISM: an S-matrix built on a frozen-phonon potential gives,
+    per configuration, the result of the S-matrix built on that configuration alone; with
+    ensemble_mean the detected measurements are the mean of those (waves are never averaged)."""
+    import abtem
+
+    pot = case["potential"]
+    n = pot["num_configs"]
+    ctx.label(f"kind={pot['kind']}")
+    ctx.label("lazy" if case["lazy"] else "eager")
+    ctx.label("mean" if pot["ensemble_mean"] else "members")
+    ctx.label(f"ndet={len(case['detectors'])}")
+    ctx.nontrivial(n >= 2)
+    cell = pot["atoms"]["cell"]
+    tmp = abtem.Probe(semiangle_cutoff=1.0, energy=case["energy"], gpts=tuple(case["gpts"]), extent=(cell[0], cell[1]))
+    cut = min(tmp.cutoff_angles)
+    semi = case["semiangle"] * cut
+
+    def run(potential, lazy):
+        S = abtem.SMatrix(potential=potential, semiangle_cutoff=semi, energy=case["energy"], interpolation=1, downsample=False)
+        dets = pl.make_detectors(case["detectors"], cut)
+        fn = S.scan if case["call"] == "scan" else S.reduce
+        out = fn(scan=pl.make_scan(case["scan"]), detectors=dets, lazy=lazy)
+        out = list(out) if isinstance(out, (list, tuple)) else [out]
+        return [o.compute() for o in out] if lazy else out
+
+    outs = run(pl.make_potential(pot, case["gpts"]), case["lazy"])
+    configs = list(pl.make_frozen_phonons(pot))
+    full = pl.make_potential(dict(pot, kind="atoms"), case["gpts"])
+    refs = []
+    for k in range(n):
+        p = abtem.Potential(configs[k], gpts=tuple(case["gpts"]), slice_thickness=full.slice_thickness, parametrization=pot["parametrization"], projection=pot["projection"])
+        refs.append(run(p, False))
+    for di, (out, det) in enumerate(zip(outs, case["detectors"])):
+        members = np.stack([refs[k][di].array for k in range(n)])
+        got = out.array
+        if _first_axis_is_config(out) and (got.shape[0] == n and not (n == 1 and pot["ensemble_mean"] and det["kind"] != "waves")):
+            ref, what = members, "member"
+        else:
+            # averaged over the configurations; the eager PRISM path keeps a length-one
+            # configuration axis for some measurement types (observed, not asserted)
+            ref, what = members.mean(axis=0), "mean"
+            if _first_axis_is_config(out) and got.shape[0] == 1:
+                got = got[0]
+        if got.shape != ref.shape and np.squeeze(got).shape == np.squeeze(ref).shape:
+            got, ref = np.squeeze(got), np.squeeze(ref)
+        if got.shape != ref.shape:
+            raise Violation(f"PRISM detector {det['kind']}: shape {got.shape} vs per-configuration reference {ref.shape}", ("prism", "shape", what, det["kind"]))
+        atol = 0.0 if det["kind"] == "waves" else 1e-6
+        if not tol.close(got, ref, rtol=RTOL, atol=atol):
+            raise Violation(
+                f"PRISM {'lazy' if case['lazy'] else 'eager'} ensemble {what} differs from independent single-configuration S-matrix runs: "
+                f"rel err {tol.rel_err(got, ref):.2e}, detector {det['kind']} ({len(case['detectors'])} detectors)",
+                ("prism", what + "_mismatch", "lazy" if case["lazy"] else "eager"),
+            )
